@@ -167,9 +167,9 @@ Definition flow_append (g : geom) (e : env) (k : akind) (len : Z) (p c : obs) : 
                re-stored with (exclusive) the bytes asked for, or nothing changes at all; the position stays or stops
                at the end of the position space *)
             let off_pos := pos_off g dp b in
-            (d_count dp =? two31 - 1) && negb (too_long g k len) &&
+            (d_count dp =? two31 - 1) &&
             (same_meta_obs p c && (g_tlen g <? tail_off dp)
-             || (g_tlen g <? off_pos + req) && (d_count dc =? d_count dp)
+             || negb (too_long g k len) && (g_tlen g <? off_pos + req) && (d_count dc =? d_count dp)
                 && ((d_tail dc (active dp) =? d_tail dp (active dp) + req)
                     || (d_tail dc (active dp) =? d_tail dp (active dp) - tail_off dp + off_pos + req))
                 && (d_tail dc ((active dp + 1) mod 3) =? d_tail dp ((active dp + 1) mod 3))
